@@ -93,6 +93,10 @@ impl Validate for Loca {
     fn validate_impl(&self, _ctx: &mut ValidationCtx) {}
 }
 
+#[cfg(googlefonts_fontations_verif)]
+#[path = "/verif/harness/incrate/loca.rs"]
+mod verif_harness;
+
 #[cfg(test)]
 mod tests {
     use super::*;
